@@ -93,8 +93,10 @@ def retry_function(unit_res, fn_path, workdir, seeds=(7, 23)):
     return False
 
 
-def run_witness(args, out_path, seed):
+def run_witness(args, out_path, seed, known_ids=()):
     cmd = [REPLAY_BIN, 'search'] + list(args) + ['--seed', str(seed), '--out', out_path]
+    if known_ids:
+        cmd += ['--known', ','.join(known_ids)]
     p = subprocess.run(cmd, stdout=subprocess.PIPE, stderr=subprocess.STDOUT, text=True)
     return p.returncode, p.stdout
 
@@ -220,7 +222,7 @@ def decide(pid, tier, spec, seed, t0, workdir, ev_path):
         witness_file = os.path.join(REPLAY_DIR, f'{pid}.witness.txt')
         if os.path.exists(witness_file):
             os.remove(witness_file)
-        rc, out = run_witness(wit_args, witness_file, seed)
+        rc, out = run_witness(wit_args, witness_file, seed, [k['id'] for k in known if k.get('matcher')])
         witness_info = dict(cmd='replay search ' + ' '.join(wit_args), exit=rc, summary=out.strip()[-600:])
         if rc == 3:
             failures.append(dict(obligation=f'differential/{wit_args[0]}', unit='replay', error=dict(
@@ -245,6 +247,15 @@ def decide(pid, tier, spec, seed, t0, workdir, ev_path):
 
     for hit, f in known_hits:
         log(f"KNOWN-FINDING: property={pid} {hit.get('what', f['obligation'])}")
+    known_ids_hit = [h.get('id') for h, _ in known_hits]
+    if witness_info:
+        for line in witness_info['summary'].split('\n'):
+            if line.startswith('known-finding:'):
+                kid = line.split()[1]
+                for k in known:
+                    if k.get('id') == kid:
+                        log(f"KNOWN-FINDING: property={pid} {k.get('what')} [{line.strip()}]")
+                        known_ids_hit.append(kid)
 
     exit_code = 0
     replay_path = None
@@ -306,7 +317,7 @@ def decide(pid, tier, spec, seed, t0, workdir, ev_path):
         bounded_differential=witness_info,
         unverified=spec.get('unverified', []),
         failed_obligations=[f['obligation'] for f in failures],
-        known_findings=[h.get('id') for h, _ in known_hits],
+        known_findings=known_ids_hit,
         undecided=undecided,
         verus_version=next((results[u].verus_version for u in all_units if results[u].verus_version), ''),
     )
@@ -317,7 +328,7 @@ def decide(pid, tier, spec, seed, t0, workdir, ev_path):
     with open(ev_path, 'w') as fh:
         json.dump(evidence, fh, indent=1)
     log(f'{pid} {tier}: obligations={obligations} discharged={discharged} violations={len(violations)} '
-        f'known={len(known_hits)} undecided={len(undecided)} wall={evidence["wall_s"]}s exit={exit_code}')
+        f'known={len(known_ids_hit)} undecided={len(undecided)} wall={evidence["wall_s"]}s exit={exit_code}')
     return exit_code
 
 
